@@ -827,8 +827,12 @@ func (x *Exec) execCall(fr *Frame, st *State, instr ssa.Instruction, c *ssa.Call
 			return
 		}
 		if spec == nil {
-			if x.chk("nilfunc") {
-				x.obligeIn(st, "nilfunc", x.srcText(instr), not(eq(fv.One(), "0")), "")
+			kind := "nilfunc" // call through a func-typed struct field (configuration hooks)
+			if strings.HasPrefix(key, "func-value") {
+				kind = "nilfuncval"
+			}
+			if x.chk(kind) {
+				x.obligeIn(st, kind, x.srcText(instr), not(eq(fv.One(), "0")), "")
 			}
 		}
 	}
